@@ -1371,17 +1371,17 @@ Inductive expr_pos_sim : expr -> expr -> Prop :=
 | PS_Root b1 b2 : Forall2 expr_pos_sim b1 b2 -> expr_pos_sim (ERoot b1) (ERoot b2).
 
 (* position erasure *)
-Definition zt (t : token) : token := mkt (ttext t) 0 (tcat t).
+Definition zt (t : token) : token := mkt (ttext t) (-1) (tcat t).
 
 Fixpoint ze (e : expr) : expr :=
   match e with
   | EText t => EText (zt t)
-  | ERaw s _ => ERaw s 0
+  | ERaw s _ => ERaw s (-1)
   | EStr s => EStr s
-  | ECmd n a b _ => ECmd n (map ze a) (map ze b) 0
-  | ENamed n a b _ => ENamed n (map ze a) (map ze b) 0
-  | EMath k b _ => EMath k (map ze b) 0
-  | EGroup k b _ => EGroup k (map ze b) 0
+  | ECmd n a b _ => ECmd n (map ze a) (map ze b) (-1)
+  | ENamed n a b _ => ENamed n (map ze a) (map ze b) (-1)
+  | EMath k b _ => EMath k (map ze b) (-1)
+  | EGroup k b _ => EGroup k (map ze b) (-1)
   | ERoot b => ERoot (map ze b)
   end.
 
@@ -1412,7 +1412,7 @@ Lemma ze_eq_sim e1 : forall e2, ze e1 = ze e2 -> expr_pos_sim e1 e2.
 Proof.
   induction e1 as [t|s p|s|n a b p IHa IHb|n a b p IHa IHb|k b p IHb|k b p IHb|b IHb]
     using expr_ind'; intros e2 E; destruct e2; simpl in E; try discriminate E; inversion E; subst.
-  - constructor. apply zt_eq. assumption.
+  - constructor. split; assumption.
   - constructor.
   - constructor.
   - constructor; [apply (map_eq_Forall2 expr_pos_sim ze _ IHa) | apply (map_eq_Forall2 expr_pos_sim ze _ IHb)]; assumption.
@@ -1442,30 +1442,362 @@ Qed.
 Lemma arg_string_ze e : arg_string (ze e) = arg_string e.
 Proof. destruct e; cbn [ze arg_string]; try reflexivity; apply estr_list_ze. Qed.
 
+Lemma Forall2_map_eq {A} (R : A -> A -> Prop) (f : A -> A) (l1 : list A) :
+  Forall (fun x => forall y, R x y -> f x = f y) l1 ->
+  forall l2, Forall2 R l1 l2 -> map f l1 = map f l2.
+Proof.
+  induction 1 as [|x l1 Hx _ IH]; intros l2 E; inversion E; subst; [reflexivity|].
+  simpl. f_equal; [apply Hx; assumption | apply IH; assumption].
+Qed.
+
+Lemma sim_ze_eq e1 : forall e2, expr_pos_sim e1 e2 -> ze e1 = ze e2.
+Proof.
+  induction e1 as [t|s p|s|n a b p IHa IHb|n a b p IHa IHb|k b p IHb|k b p IHb|b IHb]
+    using expr_ind'; intros e2 H; inversion H; subst; cbn [ze]; try reflexivity.
+  - f_equal. apply zt_eq. assumption.
+  - f_equal; [apply (Forall2_map_eq expr_pos_sim ze _ IHa) | apply (Forall2_map_eq expr_pos_sim ze _ IHb)]; assumption.
+  - f_equal; [apply (Forall2_map_eq expr_pos_sim ze _ IHa) | apply (Forall2_map_eq expr_pos_sim ze _ IHb)]; assumption.
+  - f_equal; apply (Forall2_map_eq expr_pos_sim ze _ IHb); assumption.
+  - f_equal; apply (Forall2_map_eq expr_pos_sim ze _ IHb); assumption.
+  - f_equal; apply (Forall2_map_eq expr_pos_sim ze _ IHb); assumption.
+Qed.
+
 (* related trees serialise identically *)
 Lemma expr_pos_sim_estr e1 e2 : expr_pos_sim e1 e2 -> estr e1 = estr e2.
+Proof. intro H. rewrite <- (estr_ze e1), <- (estr_ze e2), (sim_ze_eq _ _ H). reflexivity. Qed.
+
+(* ---------------------------------------------- the reader commutes with zt *)
+
+Definition zr {A} (fa : A -> A) (r : res (A * list token)) : res (A * list token) :=
+  match r with Ok (v, rest) => Ok (fa v, map zt rest) | Err e => Err e end.
+Definition zna (v : str * list expr) : str * list expr := (fst v, map ze (snd v)).
+Definition zan (v : list expr * Z) : list expr * Z := (map ze (fst v), snd v).
+
+Lemma read_spacer_zt toks :
+  read_spacer (map zt toks) = (fst (read_spacer toks), map zt (snd (read_spacer toks))).
 Proof.
-  revert e2.
-  induction e1 as [t|s p|s|n a b p IHa IHb|n a b p IHa IHb|k b p IHb|k b p IHb|b IHb]
-    using expr_ind'; intros e2 H; inversion H; subst; cbn [estr]; try reflexivity.
-  - match goal with H' : tok_pos_sim _ _ |- _ => destruct H' as [H' _]; exact H' end.
-  - f_equal. f_equal. f_equal; f_equal.
-    + revert IHa. match goal with H' : Forall2 _ a _ |- _ => induction H' end; intro IH;
-        [reflexivity|]. inversion IH; subst. simpl. f_equal; auto.
-    + revert IHb. match goal with H' : Forall2 _ b _ |- _ => induction H' end; intro IH;
-        [reflexivity|]. inversion IH; subst. simpl. f_equal; auto.
-  - f_equal. f_equal; [|f_equal]; f_equal.
-    + revert IHa. match goal with H' : Forall2 _ a _ |- _ => induction H' end; intro IH;
-        [reflexivity|]. inversion IH; subst. simpl. f_equal; auto.
-    + revert IHb. match goal with H' : Forall2 _ b _ |- _ => induction H' end; intro IH;
-        [reflexivity|]. inversion IH; subst. simpl. f_equal; auto.
-  - f_equal. f_equal. f_equal.
-    revert IHb. match goal with H' : Forall2 _ b _ |- _ => induction H' end; intro IH;
-      [reflexivity|]. inversion IH; subst. simpl. f_equal; auto.
-  - f_equal. f_equal. f_equal.
-    revert IHb. match goal with H' : Forall2 _ b _ |- _ => induction H' end; intro IH;
-      [reflexivity|]. inversion IH; subst. simpl. f_equal; auto.
-  - f_equal.
-    revert IHb. match goal with H' : Forall2 _ b _ |- _ => induction H' end; intro IH;
-      [reflexivity|]. inversion IH; subst. simpl. f_equal; auto.
+  destruct toks as [|t r]; [reflexivity|]. unfold read_spacer. cbn [map].
+  change (is_tc TMergedSpacer (zt t)) with (is_tc TMergedSpacer t).
+  destruct (is_tc TMergedSpacer t); reflexivity.
+Qed.
+
+Lemma texts_zt l : texts (map zt l) = texts l.
+Proof. unfold texts. rewrite map_map. reflexivity. Qed.
+
+Lemma skip_scan_zt T : forall toks acc,
+  skip_scan T acc (map zt toks) =
+  (fst (skip_scan T acc toks), map zt (snd (skip_scan T acc toks))).
+Proof.
+  induction toks as [|t r IH]; intro acc; [reflexivity|].
+  cbn [map skip_scan]. rewrite <- (map_cons zt), firstn_map, texts_zt.
+  destruct (starts_with _ T); [reflexivity|]. cbn [map]. apply IH.
+Qed.
+
+Lemma read_skip_env_zt name args pos toks :
+  read_skip_env name (map ze args) (-1) (map zt toks) = zr ze (read_skip_env name args pos toks).
+Proof.
+  unfold read_skip_env. rewrite skip_scan_zt.
+  destruct (skip_scan (env_end name) [] toks) as [body r]. cbn [fst snd].
+  destruct toks as [|t0 ts]; [reflexivity|]. destruct r as [|r0 rs]; [reflexivity|].
+  cbn [map]. rewrite <- (map_cons zt r0 rs), firstn_map, texts_zt.
+  destruct (starts_with _ _); [|reflexivity]. cbn [zr]. rewrite skipn_map. reflexivity.
+Qed.
+
+Lemma map_snoc (acc : list expr) e : map ze acc ++ [ze e] = map ze (acc ++ [e]).
+Proof. rewrite map_app. reflexivity. Qed.
+
+Definition ze_expr f := forall skip strict m toks,
+  read_expr f skip strict m (map zt toks) = zr ze (read_expr f skip strict m toks).
+Definition ze_item f := forall acc toks,
+  read_item_loop f (map ze acc) (map zt toks) = zr (map ze) (read_item_loop f acc toks).
+Definition ze_math f := forall k pos strict acc toks,
+  read_math_loop f k (-1) strict (map ze acc) (map zt toks) =
+  zr ze (read_math_loop f k pos strict acc toks).
+Definition ze_env f := forall name args pos skip strict m acc toks,
+  read_env_loop f name (map ze args) (-1) skip strict m (map ze acc) (map zt toks) =
+  zr ze (read_env_loop f name args pos skip strict m acc toks).
+Definition ze_command f := forall nreq nopt sk strict m toks,
+  read_command f nreq nopt sk strict m (map zt toks) =
+  zr zna (read_command f nreq nopt sk strict m toks).
+Definition ze_args f := forall nreq nopt strict m toks,
+  read_args f nreq nopt strict m (map zt toks) = zr (map ze) (read_args f nreq nopt strict m toks).
+Definition ze_opt f := forall args nopt strict m toks,
+  read_arg_optional f (map ze args) nopt strict m (map zt toks) =
+  zr zan (read_arg_optional f args nopt strict m toks).
+Definition ze_req f := forall args nreq strict m toks,
+  read_arg_required f (map ze args) nreq strict m (map zt toks) =
+  zr zan (read_arg_required f args nreq strict m toks).
+Definition ze_arg f := forall c strict m toks,
+  read_arg f (zt c) strict m (map zt toks) = zr ze (read_arg f c strict m toks).
+Definition ze_argloop f := forall k pos strict m acc toks,
+  read_arg_loop f k (-1) strict m (map ze acc) (map zt toks) =
+  zr ze (read_arg_loop f k pos strict m acc toks).
+
+Definition ze_all f :=
+  ze_expr f /\ ze_item f /\ ze_math f /\ ze_env f /\ ze_command f /\ ze_args f /\
+  ze_opt f /\ ze_req f /\ ze_arg f /\ ze_argloop f.
+
+(* rewrite with an induction hypothesis under a bind, then split on the result *)
+Ltac zbind IH :=
+  rewrite IH;
+  match goal with
+  | |- bind (zr _ ?r) _ = _ =>
+    destruct r as [[? ?]|?]; cbn [bind zr zna zan fst snd]; [|reflexivity]
+  end.
+
+Ltac zbindn IH v s :=
+  rewrite IH;
+  match goal with
+  | |- bind (zr _ ?r) _ = _ =>
+    destruct r as [[v s]|?]; cbn [bind zr zna zan fst snd]; [|reflexivity]
+  end.
+
+Lemma ze_argloop_S f : ze_all f -> ze_argloop (S f).
+Proof.
+  intros (Ze & Zi & Zm & Zv & Zc & Za & Zo & Zr & Zg & Zl).
+  intros k pos strict m acc toks. destruct toks as [|t src]; cbn [map read_arg_loop].
+  - destruct strict; reflexivity.
+  - change (is_group_end k (zt t)) with (is_group_end k t).
+    destruct (is_group_end k t); [reflexivity|].
+    rewrite <- (map_cons zt). zbind Ze. rewrite map_snoc. apply Zl.
+Qed.
+
+Lemma ze_math_S f : ze_all f -> ze_math (S f).
+Proof.
+  intros (Ze & Zi & Zm & Zv & Zc & Za & Zo & Zr & Zg & Zl).
+  intros k pos strict acc toks. destruct toks as [|t src]; cbn [map read_math_loop].
+  - reflexivity.
+  - change (is_math_end k (zt t)) with (is_math_end k t).
+    destruct (is_math_end k t); [reflexivity|].
+    rewrite <- (map_cons zt). zbind Ze. rewrite map_snoc. apply Zm.
+Qed.
+
+Lemma ze_arg_S f : ze_all f -> ze_arg (S f).
+Proof.
+  intros (Ze & Zi & Zm & Zv & Zc & Za & Zo & Zr & Zg & Zl).
+  intros c strict m toks. cbn [read_arg]. change (tcat (zt c)) with (tcat c).
+  destruct (group_kind_of_begin (tcat c)); [|reflexivity].
+  change (tpos (zt c)) with (-1)%Z. apply (Zl g (tpos c) strict m []).
+Qed.
+
+Lemma ze_item_S f : ze_all f -> ze_item (S f).
+Proof.
+  intros (Ze & Zi & Zm & Zv & Zc & Za & Zo & Zr & Zg & Zl).
+  intros acc toks. destruct toks as [|t src]; cbn [map read_item_loop]; [reflexivity|].
+  change (is_tc TEscape (zt t)) with (is_tc TEscape t).
+  change (is_tc TGroupEnd (zt t)) with (is_tc TGroupEnd t).
+  rewrite <- (map_cons zt).
+  assert (Hstep : bind (read_expr f [] true MNonMath (map zt (t :: src)))
+                       (fun '(e, src1) => read_item_loop f (map ze acc ++ [e]) src1) =
+                  zr (map ze) (bind (read_expr f [] true MNonMath (t :: src))
+                       (fun '(e, src1) => read_item_loop f (acc ++ [e]) src1))).
+  { zbind Ze. rewrite map_snoc. apply Zi. }
+  destruct (is_tc TEscape t).
+  - zbind Zc. destruct p as [cn ca]. cbn [zna fst snd].
+    destruct (str_eqb cn s_end || str_eqb cn s_item); [reflexivity | exact Hstep].
+  - destruct (is_tc TGroupEnd t); [reflexivity | exact Hstep].
+Qed.
+
+Lemma ze_opt_S f : ze_all f -> ze_opt (S f).
+Proof.
+  intros (Ze & Zi & Zm & Zv & Zc & Za & Zo & Zr & Zg & Zl).
+  intros args nopt strict m toks. cbn [read_arg_optional].
+  destruct (nopt =? 0)%Z; [reflexivity|].
+  rewrite read_spacer_zt. destruct (read_spacer toks) as [b src1]. cbn [fst snd].
+  destruct src1 as [|c src2]; cbn [map]; [reflexivity|].
+  change (is_tc TBracketBegin (zt c)) with (is_tc TBracketBegin c).
+  destruct (is_tc TBracketBegin c); [|reflexivity].
+  zbind Zg. rewrite map_snoc. apply Zo.
+Qed.
+
+Lemma ze_req_S f : ze_all f -> ze_req (S f).
+Proof.
+  intros (Ze & Zi & Zm & Zv & Zc & Za & Zo & Zr & Zg & Zl).
+  intros args nreq strict m toks. cbn [read_arg_required].
+  destruct (nreq =? 0)%Z; [reflexivity|].
+  destruct toks as [|t0 ts0]; [reflexivity|].
+  cbn [map]. rewrite <- (map_cons zt t0 ts0).
+  rewrite read_spacer_zt. destruct (read_spacer (t0 :: ts0)) as [b src1]. cbn [fst snd].
+  destruct src1 as [|c src2]; cbn [map]; [reflexivity|].
+  change (is_tc TGroupBegin (zt c)) with (is_tc TGroupBegin c).
+  change (is_tc TEscape (zt c)) with (is_tc TEscape c).
+  destruct (is_tc TGroupBegin c).
+  - zbind Zg. rewrite map_snoc. apply Zr.
+  - destruct (0 <? nreq)%Z; [|reflexivity].
+    destruct (is_tc TEscape c).
+    + zbind Zc. destruct p as [cn ca]. cbn [zna fst snd].
+      change [ECmd (strip cn) [] [] (tpos (zt c))] with [ze (ECmd (strip cn) [] [] (tpos c))].
+      rewrite map_snoc. apply Zr.
+    + change [EGroup GBrace [EStr (ttext (zt c))] (-1)]
+        with [ze (EGroup GBrace [EStr (ttext c)] (-1))].
+      rewrite map_snoc. apply Zr.
+Qed.
+
+Lemma ze_command_S f : ze_all f -> ze_command (S f).
+Proof.
+  intros (Ze & Zi & Zm & Zv & Zc & Za & Zo & Zr & Zg & Zl).
+  intros nreq nopt sk strict m toks. cbn [read_command]. rewrite map_length.
+  destruct (length toks <? sk)%nat; [reflexivity|].
+  rewrite skipn_map. destruct (skipn sk toks) as [|name src]; cbn [map]; [reflexivity|].
+  change (ttext (zt name)) with (ttext name).
+  destruct (if (nreq <? 0)%Z && (nopt <? 0)%Z then signature_of (ttext name) else (nreq, nopt))
+    as [nr no].
+  zbind Za. reflexivity.
+Qed.
+
+Lemma ze_args_S f : ze_all f -> ze_args (S f).
+Proof.
+  intros (Ze & Zi & Zm & Zv & Zc & Za & Zo & Zr & Zg & Zl).
+  intros nreq nopt strict m toks. cbn [read_args].
+  destruct ((nreq =? 0)%Z && (nopt =? 0)%Z); [reflexivity|].
+  change (read_arg_optional f [] nopt strict m (map zt toks))
+    with (read_arg_optional f (map ze []) nopt strict m (map zt toks)).
+  zbindn Zo p1 src1. destruct p1 as [args1 nopt1]. cbn [zan fst snd].
+  zbindn Zr p2 src2. destruct p2 as [args2 nreq1]. cbn [zan fst snd].
+  assert (H3 : match map zt src2 with
+               | t :: _ => if is_tc TBracketBegin t
+                           then read_arg_optional f (map ze args2) nopt1 strict m (map zt src2)
+                           else Ok (map ze args2, nopt1, map zt src2)
+               | [] => Ok (map ze args2, nopt1, map zt src2)
+               end =
+               zr zan match src2 with
+               | t :: _ => if is_tc TBracketBegin t
+                           then read_arg_optional f args2 nopt1 strict m src2
+                           else Ok (args2, nopt1, src2)
+               | [] => Ok (args2, nopt1, src2)
+               end).
+  { destruct src2 as [|t2 ts2]; [reflexivity|]. cbn [map].
+    change (is_tc TBracketBegin (zt t2)) with (is_tc TBracketBegin t2).
+    destruct (is_tc TBracketBegin t2); [|reflexivity].
+    rewrite <- (map_cons zt). apply Zo. }
+  zbindn H3 p3 src3. destruct p3 as [args3 n3]. cbn [zan fst snd].
+  assert (H4 : match map zt src3 with
+               | t :: _ => if is_tc TGroupBegin t
+                           then read_arg_required f (map ze args3) nreq1 strict m (map zt src3)
+                           else Ok (map ze args3, nreq1, map zt src3)
+               | [] => Ok (map ze args3, nreq1, map zt src3)
+               end =
+               zr zan match src3 with
+               | t :: _ => if is_tc TGroupBegin t
+                           then read_arg_required f args3 nreq1 strict m src3
+                           else Ok (args3, nreq1, src3)
+               | [] => Ok (args3, nreq1, src3)
+               end).
+  { destruct src3 as [|t3 ts3]; [reflexivity|]. cbn [map].
+    change (is_tc TGroupBegin (zt t3)) with (is_tc TGroupBegin t3).
+    destruct (is_tc TGroupBegin t3); [|reflexivity].
+    rewrite <- (map_cons zt). apply Zr. }
+  zbindn H4 p4 src4. destruct p4 as [args4 n4]. reflexivity.
+Qed.
+
+Lemma ze_env_S f : ze_all f -> ze_env (S f).
+Proof.
+  intros (Ze & Zi & Zm & Zv & Zc & Za & Zo & Zr & Zg & Zl).
+  intros name args pos skip strict m acc toks. cbn [read_env_loop].
+  destruct toks as [|t l]; cbn [map]; [destruct strict; reflexivity|].
+  change (is_tc TEscape (zt t)) with (is_tc TEscape t).
+  rewrite <- (map_cons zt t l).
+  assert (Hstep : bind (read_expr f skip strict m (map zt (t :: l)))
+            (fun '(e, src1) =>
+               read_env_loop f name (map ze args) (-1) skip strict m (map ze acc ++ [e]) src1) =
+          zr ze (bind (read_expr f skip strict m (t :: l))
+            (fun '(e, src1) => read_env_loop f name args pos skip strict m (acc ++ [e]) src1))).
+  { zbindn Ze e1 s1. rewrite map_snoc. apply Zv. }
+  destruct (is_tc TEscape t); [|exact Hstep].
+  zbindn Zc p1 s1. destruct p1 as [cn ca]. cbn [zna fst snd].
+  destruct (str_eqb cn s_end); [|exact Hstep].
+  destruct ca as [|a0 ca']; cbn [map]; [destruct strict; reflexivity|].
+  rewrite arg_string_ze.
+  destruct (negb (str_eqb (arg_string a0) name)); [destruct strict; reflexivity|].
+  rewrite skipn_map, read_spacer_zt.
+  destruct (read_spacer (skipn 2 (t :: l))) as [b src2]. cbn [fst snd].
+  destruct src2 as [|c src3]; cbn [map]; [reflexivity|].
+  zbindn Zg g1 s2. reflexivity.
+Qed.
+
+Lemma ze_expr_S f : ze_all f -> ze_expr (S f).
+Proof.
+  intros (Ze & Zi & Zm & Zv & Zc & Za & Zo & Zr & Zg & Zl).
+  intros skip strict m toks. cbn [read_expr].
+  destruct toks as [|c src]; cbn [map]; [reflexivity|].
+  change (tcat (zt c)) with (tcat c).
+  change (is_tc TEscape (zt c)) with (is_tc TEscape c).
+  change (is_tc TGroupBegin (zt c)) with (is_tc TGroupBegin c).
+  change (tpos (zt c)) with (-1)%Z.
+  destruct (math_kind_of_begin (tcat c)) as [k|].
+  { apply (Zm k (tpos c) strict []). }
+  destruct (is_tc TEscape c).
+  2:{ destruct (is_tc TGroupBegin c); [apply Zg | reflexivity]. }
+  zbindn Zc p1 src1. destruct p1 as [name args]. cbn [zna fst snd].
+  destruct (str_eqb name s_item).
+  { destruct (mode_is_math m); [reflexivity|].
+    change (read_item_loop f [] (map zt src1)) with (read_item_loop f (map ze []) (map zt src1)).
+    zbindn Zi ct s2. reflexivity. }
+  destruct (str_eqb name s_begin && negb (mode_is_special m)); [|reflexivity].
+  destruct args as [|a0 args']; cbn [map]; [reflexivity|].
+  rewrite arg_string_ze.
+  destruct (mem_str (strip (arg_string a0)) skip).
+  - apply read_skip_env_zt.
+  - apply (Zv _ args' (tpos c) skip strict _ []).
+Qed.
+
+Lemma ze_all_holds : forall f, ze_all f.
+Proof.
+  induction f as [|f IH].
+  { unfold ze_all, ze_expr, ze_item, ze_math, ze_env, ze_command, ze_args, ze_opt, ze_req,
+      ze_arg, ze_argloop.
+    repeat match goal with |- _ /\ _ => split end; intros; reflexivity. }
+  unfold ze_all. repeat match goal with |- _ /\ _ => split end.
+  - apply ze_expr_S, IH.
+  - apply ze_item_S, IH.
+  - apply ze_math_S, IH.
+  - apply ze_env_S, IH.
+  - apply ze_command_S, IH.
+  - apply ze_args_S, IH.
+  - apply ze_opt_S, IH.
+  - apply ze_req_S, IH.
+  - apply ze_arg_S, IH.
+  - apply ze_argloop_S, IH.
+Qed.
+
+Lemma read_tex_loop_zt efuel skip strict : forall fuel acc toks,
+  read_tex_loop fuel efuel skip strict (map ze acc) (map zt toks) =
+  match read_tex_loop fuel efuel skip strict acc toks with
+  | Ok b => Ok (map ze b) | Err e => Err e end.
+Proof.
+  induction fuel as [|fu IH]; intros acc toks; [reflexivity|].
+  cbn [read_tex_loop]. destruct toks as [|t ts]; cbn [map]; [reflexivity|].
+  rewrite <- (map_cons zt t ts). destruct (ze_all_holds efuel) as (Ze & _).
+  rewrite Ze. destruct (read_expr efuel skip strict MNonMath (t :: ts)) as [[e s]|er];
+    cbn [bind zr]; [|reflexivity].
+  rewrite map_snoc. apply IH.
+Qed.
+
+(* parse_tokens commutes with erasing positions *)
+Theorem parse_tokens_zt toks strict user :
+  parse_tokens (map zt toks) strict user =
+  match parse_tokens toks strict user with Ok t => Ok (ze t) | Err e => Err e end.
+Proof.
+  unfold parse_tokens, fuel_for. rewrite map_length.
+  change (@nil expr) with (map ze []) at 1. rewrite read_tex_loop_zt.
+  destruct (read_tex_loop _ _ _ _ _ toks); reflexivity.
+Qed.
+
+(* token lists that agree on text and category are parsed to trees that agree
+   up to positions, or fail with the same error *)
+Theorem parse_tokens_pos_sim l1 l2 strict user :
+  Forall2 tok_pos_sim l1 l2 ->
+  match parse_tokens l1 strict user, parse_tokens l2 strict user with
+  | Ok t1, Ok t2 => expr_pos_sim t1 t2
+  | Err e1, Err e2 => e1 = e2
+  | _, _ => False
+  end.
+Proof.
+  intro H. apply map_zt_eq in H.
+  pose proof (parse_tokens_zt l1 strict user) as H1.
+  pose proof (parse_tokens_zt l2 strict user) as H2. rewrite H in H1. rewrite H1 in H2.
+  destruct (parse_tokens l1 strict user) as [t1|e1], (parse_tokens l2 strict user) as [t2|e2];
+    try discriminate H2.
+  - inversion H2. apply ze_eq_sim. assumption.
+  - inversion H2. reflexivity.
 Qed.
